@@ -182,6 +182,12 @@ class PosePath3D(object):
                 self._poses_se3.append(self._poses_se3[j].dot(rel_poses[i]))
         else:
             self._poses_se3 = [np.dot(t, p) for p in self.poses_se3]
+        if not propagate and not lie.is_se3(t):
+            # E.g. Sim(3): the scale only applies to the positions,
+            # the rotation blocks of the poses have to stay in SO(3).
+            s = lie.sim3_scale(t)
+            for p in self._poses_se3:
+                p[:3, :3] = p[:3, :3] / s
         self._positions_xyz, self._orientations_quat_wxyz \
             = se3_poses_to_xyz_quat_wxyz(self.poses_se3)
 
